@@ -497,4 +497,33 @@ theorem range_of_pre (r : Rng α) (sr sc er ec : Nat) (h : rectPre sr sc er ec) 
   · exact ⟨_, rfl⟩
   · split <;> exact ⟨_, rfl⟩
 
+/-! ### iterators -/
+
+theorem chunksN_length (w : Nat) : ∀ (k : Nat) (l : List α), (chunksN w k l).length = k
+  | 0, _ => rfl
+  | k+1, l => by simp only [chunksN, List.length_cons, chunksN_length w k]
+
+theorem chunksN_get (w : Nat) : ∀ (k : Nat) (l : List α) (i : Nat), i < k →
+    (chunksN w k l)[i]? = some ((l.drop (i * w)).take w)
+  | 0, _, _, h => by omega
+  | k+1, l, 0, _ => by simp [chunksN]
+  | k+1, l, i+1, h => by
+    simp only [chunksN, List.getElem?_cons_succ]
+    rw [chunksN_get w k (l.drop w) i (by omega), List.drop_drop, Nat.succ_mul]
+    congr 3; omega
+
+theorem cellsFrom_length (w : Nat) : ∀ (l : List α) (s : Nat), (cellsFrom w s l).length = l.length
+  | [], _ => rfl
+  | _ :: rest, s => by simp only [cellsFrom, List.length_cons, cellsFrom_length w rest]
+
+theorem cellsFrom_get (w : Nat) : ∀ (l : List α) (s i : Nat),
+    (cellsFrom w s l)[i]? = l[i]?.map (fun v => ((s + i) / w, (s + i) % w, v))
+  | [], _, _ => by simp [cellsFrom]
+  | v :: rest, s, 0 => by simp [cellsFrom]
+  | v :: rest, s, i+1 => by
+    simp only [cellsFrom, List.getElem?_cons_succ]
+    rw [cellsFrom_get w rest (s + 1) i]
+    have : s + 1 + i = s + (i + 1) := by omega
+    rw [this]
+
 end Range
